@@ -378,6 +378,9 @@ var lastIns = map[string]func() []tensor.Tensor{}
 // operator per node per Run, C15), so that is not judged here.
 var reuseSkip = map[string]bool{"Conv": true}
 
+// set while a Conv case with exactly the geometry of the previous one is emitted
+var convReuseTwin = false
+
 func sideObservations(op string, attrs []attr, mkIns func() []tensor.Tensor, obs string, after []tensor.Tensor) {
 	effectsAll.N++
 	if a, b := tvals(mkIns()), tvals(after); a != b && len(effectsAll.Violations) < 10 {
@@ -387,7 +390,14 @@ func sideObservations(op string, attrs []attr, mkIns func() []tensor.Tensor, obs
 		}
 		effectsAll.Violations = append(effectsAll.Violations, fmt.Sprintf("%s [%s]: inputs changed by the call: before %s after %s", op, strings.Join(ap, ";"), clip(a, 400), clip(b, 400)))
 	}
-	if reuseSkip[op] {
+	if reuseSkip[op] && !convReuseTwin {
+		if op == "Conv" {
+			ap := make([]string, len(attrs))
+			for i, x := range attrs {
+				ap[i] = x.gallina()
+			}
+			lastIns[op+"|"+strings.Join(ap, ";")] = mkIns // remembered for a twin case of the same geometry
+		}
 		return
 	}
 	ap := make([]string, len(attrs))
@@ -395,14 +405,34 @@ func sideObservations(op string, attrs []attr, mkIns func() []tensor.Tensor, obs
 		ap[i] = x.gallina()
 	}
 	key := op + "|" + strings.Join(ap, ";")
-	if prev, ok := lastIns[key]; ok {
+	// the most recent earlier case of this operator and attributes for EACH "signature" of inputs
+	// (number of inputs, rank of the first input): an instance that first saw inputs of another
+	// rank or count must still behave like a fresh one
+	sig := func(ts []tensor.Tensor) string {
+		r := -1
+		if len(ts) > 0 && ts[0] != nil {
+			r = len(ts[0].Shape())
+		}
+		return fmt.Sprintf("%d/%d", len(ts), r)
+	}
+	if lastBySig[key] == nil {
+		lastBySig[key] = map[string]func() []tensor.Tensor{}
+	}
+	prevs := lastBySig[key]
+	if reuseSkip[op] { // a twin case: only the immediately preceding case (same geometry)
+		prevs = map[string]func() []tensor.Tensor{"twin": lastIns[key]}
+	}
+	for _, prev := range prevs {
 		reuseAll.N++
 		if obs2 := observeReused(op, attrs, prev(), mkIns()); obs2 != obs && len(reuseAll.Violations) < 10 {
 			reuseAll.Violations = append(reuseAll.Violations, fmt.Sprintf("%s [%s]: an instance that was applied to %s before returns %s for inputs %s, a fresh instance returns %s", op, strings.Join(ap, ";"), clip(tvals(prev()), 300), clip(obs2, 300), clip(tvals(mkIns()), 300), clip(obs, 300)))
 		}
 	}
+	lastBySig[key][sig(mkIns())] = mkIns
 	lastIns[key] = mkIns
 }
+
+var lastBySig = map[string]map[string]func() []tensor.Tensor{}
 
 func clip(s string, n int) string {
 	if len(s) > n {
